@@ -228,7 +228,7 @@ func checkC11(w *World, r *Report) {
 	}
 
 	// ---- 4. forced / graceful
-	res := w.EnumPaths(sd, EnumOpts{Inline: true, MaxPaths: 20000})
+	res := w.EnumPaths(sd, EnumOpts{Inline: true, Opaque: w.statelessCallee, MaxPaths: 20000})
 	r.Count("paths", len(res.Paths))
 	doneIdx := ""
 	allInstrs(sd, func(in ssa.Instruction) {
